@@ -471,6 +471,8 @@ def select_jobs(prop, tier, only, seed):
             continue
         if only and only not in j["h"]:
             continue
+        if os.environ.get("VERIF_THOROUGH_ONLY") and "quick" in j["tiers"]:
+            continue  # development aid: only the harnesses the thorough tier adds
         jobs.append(j)
     # VERIF_SEED only permutes the order in which jobs are started
     if seed:
